@@ -204,6 +204,7 @@ pub fn worker() {
             "call" => run_call(&case),
             "diag" => diag_case(&case),
             "history" => history_case(&case),
+            "eval" => eval_case(&case),
             other => json!({"e": "panic", "where": format!("unknown worker job {other}"), "id": 0, "message": ""}),
         };
         let mut o = stdout.lock();
@@ -402,4 +403,85 @@ pub fn history_case(case: &J) -> J {
         diffs.extend(h.join().unwrap_or_default());
     }
     json!({"e": "history", "f": f, "calls": calls.len() - excluded, "excluded": excluded, "exempt": false, "diffs": diffs})
+}
+
+// ---------------------------------------------------------------------------------------------
+// Generic evaluation job for the law engines (C24 C25 C28 C30 C31 C32 C36): named VRL expressions
+// evaluated on one event; strings come back with their code points so that TLC can reason about them.
+
+pub fn law_json(v: &Value) -> J {
+    match v {
+        Value::Bytes(b) => match std::str::from_utf8(b) {
+            Ok(s) => json!({"t": "bytes", "s": s, "u": s.chars().map(|c| c as u32).collect::<Vec<_>>()}),
+            Err(_) => json!({"t": "bytes", "c": b.iter().map(|x| *x as u64).collect::<Vec<_>>()}),
+        },
+        Value::Array(a) => json!({"t": "arr", "e": a.iter().map(law_json).collect::<Vec<_>>()}),
+        Value::Object(o) => {
+            let mut m = serde_json::Map::new();
+            for (k, x) in o {
+                m.insert(k.to_string(), law_json(x));
+            }
+            // keys in iteration (sorted) order with their code points
+            json!({"t": "obj", "m": J::Object(m), "ks": o.keys().map(|k| json!({"s": k.as_str(), "u": k.as_str().chars().map(|c| c as u32).collect::<Vec<_>>()})).collect::<Vec<_>>()})
+        }
+        Value::Integer(i) => json!({"t": "int", "w": enc::limbs_u64(*i as u64), "n": if *i >= -(1 << 30) && *i <= (1 << 30) { json!(i) } else { json!("big") }}),
+        other => enc::val_to_json(other),
+    }
+}
+
+thread_local! {
+    static PROGRAMS: std::cell::RefCell<std::collections::HashMap<String, Option<(vrl::compiler::Program, bool)>>> = std::cell::RefCell::new(std::collections::HashMap::new());
+}
+
+fn compile_expr_cached(expr: &str) -> Option<(vrl::compiler::Program, bool)> {
+    PROGRAMS.with(|p| {
+        let mut p = p.borrow_mut();
+        if let Some(c) = p.get(expr) {
+            return c.clone();
+        }
+        let fns = vrl::stdlib::all();
+        let compiled = match vrl::compiler::compile(expr, &fns) {
+            Ok(c) => Some((c.program, false)),
+            Err(_) => vrl::compiler::compile(&format!("r, err = {expr}\n[r, err]"), &fns).ok().map(|c| (c.program, true)),
+        };
+        p.insert(expr.to_owned(), compiled.clone());
+        compiled
+    })
+}
+
+pub fn eval_case(case: &J) -> J {
+    let tzname = case["tz"].as_str().unwrap_or("UTC");
+    let tz = match tzname {
+        "local" => TimeZone::Local,
+        name => TimeZone::Named(name.parse().unwrap_or(chrono_tz::UTC)),
+    };
+    let event = enc::json_to_val(&case["event"]);
+    let mut results = serde_json::Map::new();
+    for (name, expr) in case["exprs"].as_object().into_iter().flatten() {
+        let expr = expr.as_str().unwrap_or("null");
+        let r = match compile_expr_cached(expr) {
+            None => json!({"k": "rejected"}),
+            Some((prog, wrapped)) => {
+                let mut target = TargetValue { value: event.clone(), metadata: Value::Object(Default::default()), secrets: Secrets::new() };
+                let mut rt = Runtime::default();
+                match catch_unwind(AssertUnwindSafe(|| rt.resolve(&mut target, &prog, &tz))) {
+                    Err(p) => json!({"k": "panic", "m": panic_message(&p)}),
+                    Ok(Err(e)) => json!({"k": "err", "m": e.to_string()}),
+                    Ok(Ok(v)) => {
+                        if wrapped {
+                            match v {
+                                Value::Array(a) if a.len() == 2 && a[1] == Value::Null => json!({"k": "ok", "v": law_json(&a[0])}),
+                                Value::Array(a) if a.len() == 2 => json!({"k": "err", "m": a[1].to_string()}),
+                                other => json!({"k": "ok", "v": law_json(&other)}),
+                            }
+                        } else {
+                            json!({"k": "ok", "v": law_json(&v)})
+                        }
+                    }
+                }
+            }
+        };
+        results.insert(name.clone(), r);
+    }
+    json!({"e": "law", "law": case["law"], "inp": case["inp"], "tz": tzname, "src": case["law"], "r": J::Object(results)})
 }
